@@ -67,6 +67,23 @@ class IterCheck(PropCheck):
                     failures.append({"kind": "violation", "key": "%s:itq:%s" % (self.pid, core.digest(qp[0].split(":")[-1][:40])),
                                      "what": "iterator (queueing exfiltrator) schedule (%d steps): %s" % (len(r["schedule"]), qp[0]),
                                      "payload": {"scenario": r["scenario"], "schedule": r["schedule"], "impl": r["impl"][-80:], "queue": True}})
+        # C10 with the info-carrying exfiltrators rests on the per-signal channel handing records out
+        # faithfully and in order. When an obligation about it no longer checks (e.g. the regenerated
+        # order of `Channel::recv`'s calls), search with real concurrency: the window of such changes
+        # often has no atomic operation inside, so no scheduling point either.
+        if self.pid == "C10" and (tier != "quick" or getattr(self, "proof_broken", None)) and not any(f["kind"] == "violation" for f in failures):
+            import subprocess
+            p = subprocess.run([core.HARNESS_BIN, "channel-stress", "1500" if tier == "quick" else "6000"], capture_output=True, text=True, timeout=120)
+            stress = p.stdout.splitlines()
+            dist["stress"] = stress[0] if stress else "no output (exit %d)" % p.returncode
+            sprobs = [l[8:] for l in stress if l.startswith("PROBLEM ")]
+            mine = [x for x in sprobs if any(w in x for w in ("reordered", "duplicated", "leaked", "panicked"))]
+            if p.returncode != 0 and not mine:
+                mine = ["stress run died with exit status %d" % p.returncode]
+            if mine:
+                failures.append({"kind": "violation", "key": "C10:stress",
+                                 "what": "records handed through the per-signal channel of the info-carrying exfiltrators are not the delivered ones in order (unscheduled stress run, sends nested in a real SIGUSR1 handler): " + "; ".join(mine[:3]),
+                                 "payload": {"stress": stress, "queue": False, "replay_cmd": "harness/target/debug/sighook-harness channel-stress 1500"}})
         uniq = {}
         for f in failures:
             uniq.setdefault(f["key"], f)
@@ -78,6 +95,10 @@ class IterCheck(PropCheck):
                 "failures": list(uniq.values())}
 
     def replay(self, payload):
+        if "stress" in payload:
+            import subprocess
+            p = subprocess.run([core.HARNESS_BIN, "channel-stress", "3000"], capture_output=True, text=True, timeout=120)
+            return "PROBLEM" in p.stdout or p.returncode != 0, p.stdout
         if payload.get("queue"):
             from . import itq
             r = itq.run_one([l for l in payload["scenario"] if not l.startswith("seed")] + ["schedule " + " ".join(payload["schedule"])])
